@@ -6,6 +6,7 @@ pub mod infra;
 pub mod props;
 pub mod judge;
 pub mod l1;
+pub mod l2;
 pub mod refmodel;
 pub mod report;
 pub mod runner;
